@@ -37,6 +37,7 @@ func checkC02(ctx *Ctx, r *Report) {
 	})
 	r.Floor("captured-error assignments in callbacks", 10)
 	c10NumberCanonical(ctx, r)
+	c01EnumNullMember(ctx, r)
 	c02RuntimeGuard(ctx, r)
 	c02SortedSearch(ctx, r)
 	c02SortedSearchSelfTest(ctx, r)
